@@ -654,6 +654,12 @@ def check_cover(pc, timeout_ms=3000):
     return guarded_check(s, timeout_ms)
 
 
+def _unescape(s):
+    """z3 prints non-ASCII / control characters of string values as \\u{hex}: back to the real characters"""
+    import re as _re
+    return _re.sub(r"\\u\{([0-9a-fA-F]+)\}", lambda m: chr(int(m.group(1), 16)), s)
+
+
 def _literals(terms, limit=200000):
     """string / integer literals occurring in the obligation (candidate table keys for model read-back)"""
     seen, lits, stack = set(), {}, list(terms or [])
@@ -702,7 +708,7 @@ def model_inputs(ex, pre, model, terms=None):
             return {"bytes": vals}
         if isinstance(v, VStr):
             r = model.eval(v.t, model_completion=True)
-            return r.as_string() if z3.is_string_value(r) else str(r)
+            return _unescape(r.as_string()) if z3.is_string_value(r) else str(r)
         if isinstance(v, VNoneT):
             return None
         if isinstance(v, VTuple):
